@@ -154,7 +154,7 @@ func genPath(alpha []string, maxDepth int) *rapid.Generator[[]string] {
 func genOp(t *rapid.T) Op {
 	alphaGlob := []string{"a", "b", "c", "*", "*"}
 	kind := rapid.SampledFrom([]string{"add", "add", "add", "add", "del", "del", "delcond", "walkdel", "handle", "hupdate",
-		"add", "add", "add", "add", "del", "del", "delcond", "walkdel", "handle", "hupdate", "qstop", "qstop", "wstop", "wsstop", "qpanic", "wpanic", "wspanic"}).Draw(t, "kind")
+		"add", "add", "add", "add", "del", "del", "delcond", "walkdel", "handle", "hupdate", "qstop", "qstop", "wstop", "wsstop", "qpanic", "wpanic", "wspanic", "dcpanic", "wdpanic"}).Draw(t, "kind")
 	op := Op{Kind: kind}
 	if kind != "hupdate" && rapid.IntRange(0, 2).Draw(t, "relative") == 0 {
 		// address relative to an existing leaf: k-th leaf, cut c elements, append suffix
@@ -165,7 +165,7 @@ func genOp(t *rapid.T) Op {
 	case "add":
 		op.Path = genPath(randAlphabet, 4).Draw(t, "path")
 		op.Val = rapid.IntRange(1, 1000).Draw(t, "val")
-	case "del", "delcond", "walkdel":
+	case "del", "delcond", "walkdel", "dcpanic", "wdpanic":
 		op.Path = genPath(alphaGlob, 5).Draw(t, "pat")
 	case "qstop", "wstop", "wsstop", "qpanic", "wpanic", "wspanic":
 		if kind == "qstop" || kind == "qpanic" {
